@@ -212,6 +212,15 @@ func runConcRIO(args []string) error {
 		}
 		seekLimit = int(offs[len(offs)-2]) // SeekNext probes stay in front of the cut record
 	}
+	// before the concurrent part: the same file is read sequentially by readers that are then closed TWICE (defer + explicit) - whatever a
+	// reader hands back on Close must not come back to haunt the readers that are opened afterwards
+	for i := 0; i < 3; i++ {
+		if sr, err := recordio.NewFileReaderWithPath(path); err == nil && sr.Open() == nil {
+			sr.ReadNext()
+			sr.Close()
+			sr.Close()
+		}
+	}
 	mr, err := recordio.NewMemoryMappedReaderWithPath(path)
 	if err != nil {
 		return err
